@@ -81,6 +81,12 @@ if hist:
     meta["history"] = hist
 if prev_meta.get("note"):
     meta["note"] = prev_meta["note"]
+try:
+    _notes = json.load(open("/verif/seeded/notes.json"))
+    if name in _notes:
+        meta["note"] = _notes[name]
+except Exception:
+    pass
 meta["verification"] = res
 meta["what_i_ran"] = ["git worktree add /tmp/ts_%s HEAD; git apply patch.diff" % name, "python3 /verif/tools/baseline_check.py <worktree>",
                       "go test -run TestSeed . (with and without the patch)", "VERIF_REPO=<worktree> ./check <id> quick in an isolated copy of /verif"]
